@@ -25,8 +25,8 @@ pub const NNAMES: u8 = 16;
 pub const PLAIN_NAMES: u8 = 3;
 
 fn long_name(last: char) -> &'static str {
-  // 1 KiB of identical characters, then one distinguishing character at the very end
-  let mut s = "x".repeat(1024);
+  // 300 identical characters (more than any 8-bit length), then one distinguishing character
+  let mut s = "x".repeat(300);
   s.push(last);
   Box::leak(s.into_boxed_str())
 }
